@@ -40,10 +40,13 @@ var GhostKnown map[string]bool
 // @   abstract
 func SpecUeOf(supi string) *ChfUe { return nil }
 
-// (*ChfUe).init builds the go-diameter state machines and clients and draws session ids (outside the
-// verified subset): assumed to establish the subscriber-context invariant.
-//@ func (*ChfUe).init [C11 C12 C10]
-//@   trusted
+// (*ChfUe).init establishes the subscriber-context invariant: checked against its body (the maps are
+// made, the clients are addresses of composite literals; sm.New, diam.NewAVP and the id generator are
+// assumed contracts on dependencies). It reads the configuration unconditionally, so it needs a validated
+// one (C20: the requirement is discharged up the create-request chain).
+//@ func (*ChfUe).init [C11 C12 C10 C20]
+//@   requires ue != nil
+//@   requires [C20] factory.SpecValidated(factory.ChfConfig)
 //@   ensures SpecUeOK(ue)
 //@   modifies obj(ue)
 
@@ -51,6 +54,7 @@ func SpecUeOf(supi string) *ChfUe { return nil }
 // that prefix); the ghost view of the pool (SpecUeOf, GhostKnown) is assumed to follow the sync.Map.
 //@ func (*CHFContext).NewCHFUe [C11 C12 C10]
 //@   requires context != nil && !verif_held(&context.Mutex)
+//@   requires [C20] factory.SpecValidated(factory.ChfConfig)
 //@   assert "if ue, ok := context.ChfUeFindBySupi(supi)": [C09] verif_held(&context.Mutex)
 //@   assert "context.AddChfUeToUePool(": [C09] verif_held(&context.Mutex)
 //@   ensures (result1 == nil) == (result0 != nil)
